@@ -970,11 +970,10 @@ class NestedCommandsIrcProxy(ReplyIrcProxy):
                     allowedLength = conf.get(conf.supybot.reply.mores.length,
                         channel=target, network=self.irc.network)
                     if not allowedLength: # 0 indicates this.
-                        if self.private or self.to or msg.channel:
-                            recipient = target
-                        else:
-                            # _makeReply answers a query to the nick.
-                            recipient = msg.nick
+                        # Ask _makeReply where it sends this reply (to=,
+                        # private=, reply.inPrivate, a query, ...).
+                        recipient = _makeReply(self, msg, 'x',
+                                               **replyArgs).args[0]
                         if minisix.PY3:
                             byteLength = lambda x: len(x.encode())
                         else:
@@ -987,7 +986,8 @@ class NestedCommandsIrcProxy(ReplyIrcProxy):
                                 - len('\r\n')
                                 )
                         if self.prefixNick:
-                            allowedLength -= byteLength(msg.nick) + len(': ')
+                            allowedLength -= byteLength(self.to or msg.nick) \
+                                    + len(': ')
                     maximumMores = conf.get(conf.supybot.reply.mores.maximum,
                         channel=target, network=self.irc.network)
                     maximumLength = allowedLength * maximumMores
